@@ -15,6 +15,7 @@ import SymfcModel.Model.Solver
 import SymfcModel.Model.Api
 import SymfcModel.Model.Eig
 import SymfcModel.Model.SgPerm
+import SymfcModel.Model.Relabel
 import SymfcModel.Gen.PermTables
 import SymfcModel.Gen.Cutoff
 import SymfcModel.Gen.Solver
@@ -204,6 +205,19 @@ def handle (j : Json) : Except String Json := do
     let c ← jCell j; let n ← jNat j "n"
     pure (Json.arr ((tuples c.N n).map (fun t => match c.classIdx t with
       | some v => Json.num (JsonNumber.fromNat v) | none => Json.null)).toArray)
+  | "relabel" =>
+    -- C10: the relabelled description (translation table, distance-rank matrix, tuples) of Model/Relabel.lean
+    let c ← jCell j
+    let pi ← jNatList (← j.getObjVal? "pi"); let piinv ← jNatList (← j.getObjVal? "piinv")
+    let cut ← jCut j
+    let tuples ← jNatMat (← j.getObjVal? "tuples")
+    let c' := c.relabel pi.toArray piinv.toArray
+    let cutJ := match cut with
+      | none => Json.null
+      | some x => natMatJ (((x.relabel pi.toArray piinv.toArray).dist).toList.map (·.toList))
+    pure (Json.mkObj [("ok", Json.bool (isRelabelling c.N pi.toArray piinv.toArray)),
+      ("tp", natMatJ (c'.tp.toList.map (·.toList))), ("dist", cutJ),
+      ("tuples", natMatJ (tuples.toList.map (fun t => relabelTuple pi.toArray t.toList)))])
   | "lat_trans_decompr" =>
     let c ← jCell j; let n ← jNat j "n"
     pure (natsJ (c.latTransDecompr n).toList)
